@@ -465,7 +465,115 @@ def rule_g2_g3(ck, prog, S):
         ck.violated("C16-G3", st, K.loc(f), sorted(set(probs))[0], {"all": sorted(set(probs))})
     else:
         ck.holds("C16-G3", st, K.loc(f), "fixed for 1 < decpt <= P and -4 < decpt <= 0, else d.ddd e(decpt-1); sign, two digits; zeros/point trimmed")
+    trim_start(ck, prog, f, prec, ecvt[0], points)
     return True
+
+
+def trim_start(ck, prog, f, prec, ecvt_call, points):
+    """the trailing-zero trim must start at the last digit of the laid-out number in every notation arm.
+    Index arithmetic only: scpi_ecvt leaves `prec` digits and a NUL at index prec of its buffer; each arm moves a block
+    [b, b+n) that contains that NUL to [a, a+n); the last digit then sits at prec - b + a - 1. The trim starts at
+    (advance of the cursor in that arm) + (index used by the trim start)."""
+    from sa.linear import Lin
+    D, P_ = "decpt", prec
+
+    def lin(n, env):
+        n = n.strip_all_casts()
+        while n.k == "ParenExpr":
+            n = n.child(0).strip_all_casts()
+        c = C.const_of(n)
+        if c is not None and n.k != "DeclRefExpr":
+            return Lin.const(c)
+        p = n.get("path")
+        if p == D:
+            return env["d"]
+        if p == P_:
+            return Lin.sym("P")
+        if n.k == "UnaryOperator" and n.get("op") == "-":
+            v = lin(n.child(0), env)
+            return None if v is None else v.scale(-1)
+        if n.k == "BinaryOperator" and n.get("op") in ("+", "-"):
+            a, b = lin(n.child(0), env), lin(n.child(1), env)
+            if a is None or b is None:
+                return None
+            return a + b if n["op"] == "+" else a - b
+        return None
+
+    def ptr_off(n, env, base):
+        """offset of pointer expression n relative to the digit cursor `base`"""
+        n = n.strip_all_casts()
+        while n.k == "ParenExpr":
+            n = n.child(0).strip_all_casts()
+        if n.get("path") == base:
+            return env["s"]
+        if n.k == "BinaryOperator" and n.get("op") in ("+", "-"):
+            a = ptr_off(n.child(0), env, base)
+            b = lin(n.child(1), env)
+            if a is None or b is None:
+                return None
+            return a + b if n["op"] == "+" else a - b
+        if n.k == "UnaryOperator" and n.get("op") == "&":
+            i_ = n.child(0).strip_all_casts()
+            if i_.k == "ArraySubscriptExpr" and i_.child(0).strip_all_casts().get("path") == base:
+                b = lin(i_.child(1), env)
+                return None if b is None else env["s"] + b
+        return None
+    a4 = C.call_args(ecvt_call)
+    base = a4[4].strip_all_casts().get("path") if len(a4) > 4 else None
+    st = K.site(f, "trim-starts-at-last-digit", 0)
+    # the trim start: `base = &base[<idx>]` (or base += idx) at the join after the arms
+    starts = [n for n, t in C.stores(f) if t.get("path") == base and n.get("op") == "=" and
+              n.child(1).strip_all_casts().k == "UnaryOperator" and n.child(1).strip_all_casts().get("op") == "&"]
+    if not base or not starts:
+        ck.undecided("C16-G3", st, K.loc(f), "trim start `%s = &%s[...]` not found" % (base, base))
+        return
+    arms_seen = 0
+    for pt in points:
+        blk = f.where[pt.id][0]
+        env = {"d": Lin.sym("d"), "s": Lin.const(0)}
+        last = None
+        for e in blk.elems:
+            t = C.store_target(e)
+            if t is not None and t.get("path") == D:
+                if e.get("op") == "=":
+                    v = lin(e.child(1), env)
+                    env["d"] = v if v is not None else Lin.sym("d?")
+                elif e.k == "UnaryOperator":
+                    env["d"] = env["d"] + Lin.const(1 if e["op"] == "++" else -1)
+            elif t is not None and t.get("path") == base:
+                if e.get("op") in ("+=", "-="):
+                    v = lin(e.child(1), env)
+                    if v is not None:
+                        env["s"] = env["s"] + (v if e["op"] == "+=" else v.scale(-1))
+                elif e.k == "UnaryOperator":
+                    env["s"] = env["s"] + Lin.const(1 if e["op"] == "++" else -1)
+            elif e.k == "CallExpr" and e.get("callee") in ("memmove", "__builtin_memmove", "__builtin___memmove_chk"):
+                ar = C.call_args(e)
+                a_, b_ = ptr_off(ar[0], env, base), ptr_off(ar[1], env, base)
+                if a_ is not None and b_ is not None:
+                    last = Lin.sym("P") - b_ + a_ - Lin.const(1)
+        if last is None:
+            continue
+        arms_seen += 1
+        idx = starts[0].child(1).strip_all_casts().child(0).strip_all_casts()
+        env2 = dict(env)
+        start = lin(idx.child(1), env2)
+        if start is None:
+            ck.undecided("C16-G3", st, K.loc(f, starts[0]), "trim start index not linear")
+            return
+        start = env["s"] + start
+        diff = last - start
+        if not (diff.is_const() and diff.k == 0):
+            ck.violated("C16-G3", st, K.loc(f, pt),
+                        "in this notation arm the last digit sits at index %r but the trailing-zero trim starts at index %r "
+                        "(d = decpt on entry to the arm, P = precision): digits behind an inner zero are cut and trailing zeros "
+                        "survive, e.g. 0.00123456789012000 is printed with its zeros and 0.0012345678901045 loses its last digits"
+                        % (last, start))
+            return
+    if arms_seen < 3:
+        ck.anchor_lost("C16-G3", "notation arms with a block move (%d found)" % arms_seen)
+    else:
+        ck.holds("C16-G3", st, K.loc(f, starts[0]), "in each of the %d notation arms the trim starts at the last digit" % arms_seen)
 
 
 def rule_g4(ck, prog, S):
